@@ -79,6 +79,9 @@ def _gen(shape, n0, n1, n2, s0, s1, a0):
         root.text = None
         root.children = [mid]
         return root
+    if shape == 9:
+        # leaf carrying xsi:type="xs:QName" whose VALUE uses a prefix bound (on the leaf itself) to a namespace nothing else in the document uses
+        return mutate.Node(NAMES[n0], {"{%s}type" % seam.XSI: "xs:QName"}, "p:nm", None, [], [("xs", XS), ("p", "urn:d")])
     if shape == 8:
         # an element that resolves (by name, through the context) to a TYPED model owning a wildcard list, i.e. typed content nested in generic content
         return mutate.Node("wl", {}, None, None, [mutate.Node("{urn:c}c", {}, s0 if s0 != "" else None), mutate.Node(NAMES[2 + n2 % 2], {ANAMES[a0 % 3]: "v"}, "t")])
@@ -112,6 +115,8 @@ def _norm(node):
     tkey = "{%s}type" % seam.XSI
     if node.attrs.get(tkey) == "xs:string":
         node = mutate.Node(node.qname, dict(node.attrs, **{tkey: "{%s}string" % XS}), node.text, node.tail, node.children, node.ns)
+    if node.attrs.get(tkey) == "xs:QName":
+        node = mutate.Node(node.qname, dict(node.attrs, **{tkey: "{%s}QName" % XS}), "{urn:d}nm", node.tail, node.children, node.ns)
     if node.attrs.get(tkey) == "p:T":
         node = mutate.Node(node.qname, dict(node.attrs, **{tkey: "{urn:b}T"}), node.text, node.tail, node.children, node.ns)
     kids = []
@@ -170,7 +175,7 @@ def tree_rt(shape: int, n0: int, n1: int, n2: int, s0: str, s1: str, a0: int) ->
     calls = seam.to_sax(obj, PART.get("writer", "native"), None, None, ctx)
     if seam.monitor(calls, PART.get("writer", "native") == "native"):
         return result(False)
-    return result(_tree_eq(seam.tree_of(calls), [_norm(doc)]))
+    return result(_tree_eq(seam.tree_of(calls, qnames=[g.qname] if shape == 9 else ()), [_norm(doc)]))
 
 
 _CTXS = {}
@@ -228,13 +233,15 @@ def plan(tier):
     jobs = []
     quick = tier == "quick"
     for p_i, place in enumerate(("tree", "wild", "list", "mixed", "wild2")):
-        for shape in range(9):
+        for shape in range(10):
             for h_i, handler in enumerate(("native", "lxml")):
                 if shape == 8 and place not in ("mixed", "wild"):
                     continue
+                if shape == 9 and place not in ("wild", "list"):
+                    continue
                 if shape == 8 and place == "wild" and _KNOWN_NONS_MODEL:
                     continue  # exactly the signature of the listed known finding (namespace-less model under a namespaced parent's wildcard)
-                if quick and (p_i + shape + h_i) % 2:
+                if quick and (p_i + shape + h_i) % 2 and shape != 9:
                     continue
                 if place == "tree" and shape == 5:
                     continue  # not comparable (see tree_rt)
